@@ -25,11 +25,12 @@ type scriptSrc struct {
 	pos    int
 	next   uint32
 	draws  int
+	limit  int
 }
 
 func (s *scriptSrc) Int63() int64 {
 	s.draws++
-	if s.draws > 10000 {
+	if s.draws > max(10000, s.limit) {
 		panic("generator does not terminate")
 	}
 	var v uint32
@@ -48,7 +49,7 @@ func TestC16Random(t *testing.T) {
 	rep := ev.NewReport("C16", "random-generator")
 	alpha := []uint32{0, 1, 2, M}
 	L := 5
-	rep.Bound = fmt.Sprintf("every sequence of %d scripted draws over %v (then a counter from 3 upwards), every taken set ⊆ %v, requested count -1..4", L, alpha, alpha)
+	rep.Bound = fmt.Sprintf("every sequence of %d scripted draws over %v (then a counter from 3 upwards), every taken set ⊆ %v, requested count -1..4; plus runs of 6..70, …, 9000 consecutive clashing draws (taken tokens, the generator's own earlier draws, or both in turn) before each of 1..3 requested tokens", L, alpha, alpha)
 	rep.Rule = "real RandomTokenGenerator.GenerateTokens on an injected randomness source: no taken token, no duplicate, sorted, exactly the requested count (<=0 ⇒ empty), terminates; distinct_nontrivial = runs in which a draw collided with a taken token or an earlier draw"
 	deadline := ev.Deadline(5 * time.Minute)
 	nSeq := 1
@@ -119,6 +120,63 @@ func TestC16Random(t *testing.T) {
 	})
 	if !ok {
 		rep.NotExhaustive("deadline or violation cap")
+	}
+	// Dense spaces: long runs of consecutive clashes. The source answers a taken token (or one of the generator's own
+	// earlier draws, or both in turn) n times in a row before the next free one; "the requested count whenever that
+	// many free tokens exist" has no limit on how many clashes come first.
+	var runs []int
+	for n := 6; n <= 70; n++ {
+		runs = append(runs, n)
+	}
+	runs = append(runs, 99, 100, 101, 127, 128, 129, 255, 256, 257, 500, 511, 512, 513, 1000, 1023, 1024, 1025, 2000, 4095, 4096, 4097, 9000)
+	for _, n := range runs {
+		for req := 1; req <= 3; req++ {
+			for g := 0; g < req; g++ { // the run comes before the (g+1)-th accepted token
+				for kind := 0; kind < 3; kind++ { // 0 taken tokens, 1 own earlier draws, 2 both in turn
+					if kind >= 1 && g == 0 {
+						continue
+					}
+					taken := []uint32{0, 1, M}
+					var script []uint32
+					for i := 0; i < g; i++ {
+						script = append(script, uint32(10+i))
+					}
+					for i := 0; i < n; i++ {
+						switch {
+						case kind == 0 || (kind == 2 && i%2 == 0):
+							script = append(script, taken[i%len(taken)])
+						default:
+							script = append(script, uint32(10+i%g))
+						}
+					}
+					src := &scriptSrc{script: script, next: 100, limit: 30000}
+					gen := ring.VerifNewRandomTokenGeneratorWithSource(src)
+					var got ring.Tokens
+					var perr any
+					func() {
+						defer func() { perr = recover() }()
+						got = gen.GenerateTokens(req, taken)
+					}()
+					rep.Eval(1)
+					rep.Trans(1)
+					cs := fmt.Sprintf("taken=%v requested=%d: %d free draws, then %d clashing draws in a row (kind %d: 0 taken tokens, 1 own earlier draws, 2 both in turn), then free values 100..", taken, req, g, n, kind)
+					var want []uint32
+					for i := 0; i < g; i++ {
+						want = append(want, uint32(10+i))
+					}
+					for i := g; i < req; i++ {
+						want = append(want, uint32(100+i-g))
+					}
+					switch {
+					case perr != nil:
+						rep.Violate("randrun:"+cs, cs+": panic: "+fmt.Sprint(perr), nil)
+					case !slices.Equal([]uint32(got), want):
+						rep.Violate("randrun:"+cs, fmt.Sprintf("%s: returned %v, want the %d free values drawn %v", cs, got, req, want), nil)
+					}
+					rep.Distinct(cs)
+				}
+			}
+		}
 	}
 	rep.State(rep.Evaluations)
 	rep.Trace(rep.Evaluations)
